@@ -1,6 +1,7 @@
 package props
 
 import (
+	"cmp"
 	"godsverif/core"
 
 	"github.com/emirpasic/gods/v2/containers"
@@ -596,7 +597,140 @@ func (e *enumKey[K, V]) receiverToResult(c *core.Ctx, d *Dom[K]) {
 
 var enumKinds = []string{"ArrayList", "SinglyLinkedList", "DoublyLinkedList", "TreeSet", "LinkedHashSet", "TreeMap", "LinkedHashMap", "TreeBidiMap"}
 
+// runHugeEnum: the enumerable functions on receivers with a few hundred
+// thousand elements inserted in strictly falling or rising order (the deepest
+// trees, the longest lists): traversals written with their own fixed-size
+// stack or with recursion only give out here. Content is known by
+// construction: keys/elements 0,6,...,6(n-1), map values 7k+1.
+const hugeEnumCases = 10
+
+func runHugeEnum(c *core.Ctx, j int) {
+	n := 250000
+	if c.Tier == "thorough" {
+		n = 1200000
+	}
+	natural := func(a, b int) int { return cmp.Compare(a, b) }
+	falling := j%2 == 0
+	key := func(i int) int {
+		if falling {
+			return (n - 1 - i) * 6
+		}
+		return i * 6
+	}
+	kind := []string{"TreeMap", "TreeSet", "TreeBidiMap", "LinkedHashSet", "DoublyLinkedList"}[(j/2)%5]
+	c.Begin(kind, "build", n, map[bool]string{true: "falling", false: "rising"}[falling])
+	var keyE containers.EnumerableWithKey[int, int]
+	var idxE containers.EnumerableWithIndex[int]
+	var selSize, mapSize func() int
+	sorted := true
+	switch kind {
+	case "TreeMap":
+		m := treemap.NewWith[int, int](natural)
+		for i := 0; i < n; i++ {
+			m.Put(key(i), 7*key(i)+1)
+		}
+		keyE = m
+		selSize = func() int { return m.Select(func(k, v int) bool { return k%12 == 0 }).Size() }
+		mapSize = func() int { return m.Map(func(k, v int) (int, int) { return -k, v }).Size() }
+	case "TreeBidiMap":
+		m := treebidimap.NewWith[int, int](natural, natural)
+		for i := 0; i < n; i++ {
+			m.Put(key(i), 7*key(i)+1)
+		}
+		keyE = m
+		selSize = func() int { return m.Select(func(k, v int) bool { return k%12 == 0 }).Size() }
+		mapSize = func() int { return m.Map(func(k, v int) (int, int) { return -k, v }).Size() }
+	case "TreeSet":
+		st := treeset.NewWith[int](natural)
+		for i := 0; i < n; i++ {
+			st.Add(key(i))
+		}
+		idxE = st
+		selSize = func() int { return st.Select(func(i, v int) bool { return v%12 == 0 }).Size() }
+		mapSize = func() int { return st.Map(func(i, v int) int { return -v }).Size() }
+	case "LinkedHashSet":
+		st := linkedhashset.New[int]()
+		for i := 0; i < n; i++ {
+			st.Add(key(i))
+		}
+		idxE, sorted = st, false
+		selSize = func() int { return st.Select(func(i, v int) bool { return v%12 == 0 }).Size() }
+		mapSize = func() int { return st.Map(func(i, v int) int { return -v }).Size() }
+	default:
+		l := doublylinkedlist.New[int]()
+		for i := 0; i < n; i++ {
+			l.Add(key(i))
+		}
+		idxE, sorted = l, false
+		selSize = func() int { return l.Select(func(i, v int) bool { return v%12 == 0 }).Size() }
+		mapSize = func() int { return l.Map(func(i, v int) int { return -v }).Size() }
+	}
+	want := func(pos int) int { // the pos-th element in enumeration order
+		if sorted {
+			return pos * 6
+		}
+		return key(pos)
+	}
+	visits := 0
+	c.Begin(kind, "Each")
+	if keyE != nil {
+		keyE.Each(func(k, v int) {
+			if k != want(visits) || v != 7*k+1 {
+				c.Fail("each", "huge", "%s.Each on %d elements: visit #%d is (%d,%d), want key %d", kind, n, visits, k, v, want(visits))
+			}
+			visits++
+		})
+	} else {
+		idxE.Each(func(i, v int) {
+			if i != visits || v != want(visits) {
+				c.Fail("each", "huge", "%s.Each on %d elements: visit #%d is (%d,%d), want (%d,%d)", kind, n, visits, i, v, visits, want(visits))
+			}
+			visits++
+		})
+	}
+	if visits != n {
+		c.Fail("each", "huge-count", "%s.Each on %d elements made %d visits", kind, n, visits)
+	}
+	last := want(n - 1)
+	c.Begin(kind, "Any/All/Find")
+	if keyE != nil {
+		if keyE.Any(func(k, v int) bool { return k < 0 }) || !keyE.Any(func(k, v int) bool { return k == last }) {
+			c.Fail("any", "huge", "%s.Any on %d elements is wrong about a key that is absent / the last one", kind, n)
+		}
+		if !keyE.All(func(k, v int) bool { return v == 7*k+1 }) || keyE.All(func(k, v int) bool { return k != last }) {
+			c.Fail("all", "huge", "%s.All on %d elements is wrong", kind, n)
+		}
+		if k, v := keyE.Find(func(k, v int) bool { return k == last }); k != last || v != 7*last+1 {
+			c.Fail("find", "huge", "%s.Find of the last key on %d elements = (%d,%d)", kind, n, k, v)
+		}
+	} else {
+		if idxE.Any(func(i, v int) bool { return v < 0 }) || !idxE.Any(func(i, v int) bool { return v == last }) {
+			c.Fail("any", "huge", "%s.Any on %d elements is wrong about an element that is absent / the last one", kind, n)
+		}
+		if !idxE.All(func(i, v int) bool { return v == want(i) }) || idxE.All(func(i, v int) bool { return v != last }) {
+			c.Fail("all", "huge", "%s.All on %d elements is wrong", kind, n)
+		}
+		if i, v := idxE.Find(func(i, v int) bool { return v == last }); i != n-1 || v != last {
+			c.Fail("find", "huge", "%s.Find of the last element on %d elements = (%d,%d)", kind, n, i, v)
+		}
+	}
+	c.Begin(kind, "Select")
+	if sz := selSize(); sz != (n+1)/2 {
+		c.Fail("select", "huge", "%s.Select(every second element) on %d elements has Size %d", kind, n, sz)
+	}
+	c.Begin(kind, "Map")
+	if sz := mapSize(); sz != n {
+		c.Fail("map", "huge", "%s.Map(negate) on %d elements has Size %d", kind, n, sz)
+	}
+	c.Count("obs:huge-enumerable-cases", 1)
+	c.Nontrivial()
+}
+
 func runC14(c *core.Ctx) {
+	if c.Index < hugeEnumCases {
+		runHugeEnum(c, c.Index)
+		return
+	}
 	r := c.R
 	kind := enumKinds[c.Index%len(enumKinds)]
 	d := IntDom(r.Range(3, 16))
@@ -681,6 +815,7 @@ func init() {
 			f.atLeast("obs:Map", 20000)
 			f.atLeast("obs:Find-match", 5000)
 			f.atLeast("obs:Find-no-match", 5000)
+			f.atLeast("obs:huge-enumerable-cases", hugeEnumCases)
 			for _, k := range enumKinds {
 				f.atLeast("call:"+k+".Map", 1000)
 			}
